@@ -32,6 +32,9 @@ TSend ==
 
 TRedial == St("redial") /\ UNCHANGED truth
 
+(* the target ends its stream in an orderly way and starts a new life: its state is what it streams from now on *)
+TSession == St("tsession") /\ truth' = {x \in truth : x.t # Ev.t}
+
 (* sub: the view was asked for one sub-tree only (element names and key values below any origin); <<>> = everything *)
 Expected(scope, kind, sub) ==
     {[t |-> x.t, p |-> x.p, val |-> IF kind = "group" THEN x.gval ELSE x.val] :
@@ -44,7 +47,7 @@ TView ==
     /\ SeqToSet(Ev.leaves) = Expected(Ev.scope, Ev.kind, Ev.sub)
     /\ UNCHANGED truth
 
-TNext == TConfig \/ TSend \/ TRedial \/ TView
+TNext == TConfig \/ TSend \/ TRedial \/ TSession \/ TView
 TSpec == TInit /\ [][TNext]_tvars
 
 Track == IF l > TLCGet(1) THEN TLCSet(1, l) ELSE TRUE
